@@ -2,7 +2,7 @@
 (* impl -> spec for whole programs (C01, C10, C12, C13, C14): each recorded execution of the
    real pipeline (source text -> parse -> compile -> serialize -> load -> interpret) is
    compared with the behaviour of the README semantics FMLSource on the same AST.
-   Input (env PROGS): ndjson of [id, ast, names, mode, status : "ok"|"fail"|"reject", out]
+   Input (env PROGS): ndjson of [id, ast, names, mode, budget, status : "ok"|"fail"|"reject", out]
    (status/out = what the implementation did).  The spec machine runs the program to its end,
    one state per step, every step checked against the step properties; one VERDICT per program. *)
 EXTENDS FMLSource, Json, IOUtils
@@ -12,7 +12,7 @@ ASSUME TLCSet(1, ndJsonDeserialize(IOEnv.PROGS))
 Rec == TLCGet(1)
 ASSUME TLCSet(2, [i \in 1..Len(Rec) |-> MkProgram(Rec[i])])
 Prg(i) == TLCGet(2)[i]
-Budget == IF "BUDGET" \in DOMAIN IOEnv THEN CHOOSE b \in {1000, 5000, 20000, 100000, 400000} : ToString(b) = IOEnv.BUDGET ELSE 20000
+Budget == Rec[t].budget
 
 Init == \E i \in 1..Len(Rec) : t = i /\ n = 0 /\ s = SrcInit(Prg(i)) /\ verdict = "ok"
 Next == /\ s.st = "run" /\ verdict = "ok" /\ n < Budget
@@ -28,7 +28,11 @@ Agree == LET r == Rec[t] IN
     [] s.st = "fail"   -> IF s.note = "cycle" THEN r.status # "crash" /\ IsPrefixOf(s.out, r.out)   \* any clean outcome of printing a cyclic value
                           ELSE r.status = "fail" /\ r.out = s.out
     [] OTHER -> FALSE
+\* allocation history (C16): one shape per array / object created, in creation order
+ShapeOfObj(o) == IF o.k = "arr" THEN [k |-> "arr", n |-> Len(o.elems), fields |-> <<>>, methods |-> <<>>]
+                 ELSE [k |-> "obj", n |-> Len(o.fields), fields |-> [i \in 1..Len(o.fields) |-> o.fields[i][1]],
+                       methods |-> [i \in 1..Len(o.methods) |-> o.methods[i].n]]
 Final == ~Stop \/ PrintT(<<"VERDICT", ToJson([id |-> Rec[t].id, st |-> s.st, steps |-> n, frag |-> s.frag, amb |-> s.amb, note |-> s.note,
                                                verdict |-> IF verdict # "ok" THEN verdict ELSE IF s.st = "run" THEN "budget" ELSE "ok",
-                                               agree |-> (s.st # "run" /\ Agree), specout |-> IF s.st # "run" /\ Agree THEN <<>> ELSE s.out, allocs |-> Len(s.heap), outlen |-> Len(s.out)])>>)
+                                               agree |-> (s.st # "run" /\ Agree), specout |-> IF s.st # "run" /\ Agree THEN <<>> ELSE s.out, allocs |-> Len(s.heap), shapes |-> IF Rec[t].wantshapes THEN [i \in 1..Len(s.heap) |-> ShapeOfObj(s.heap[i])] ELSE <<>>, outlen |-> Len(s.out)])>>)
 =============================================================================
